@@ -67,7 +67,8 @@ BadSnippet == { k \in 1..Len(Diags) : ~Diags[k].snip }
 Between(i, j) == { T(k).kind : k \in (i + 1)..(j - 1) }
 SpacesPairBad == \E k \in 1..(Len(Diags) - 1) : Diags[k].cls = "subword_spaces" /\ Diags[k + 1].cls = "subword_spaces_2" /\
                    ~\E i \in At(Diags[k]) \cap Fits(Diags[k]) : \E j \in At(Diags[k + 1]) \cap Fits(Diags[k + 1]) :
-                        i < j /\ Between(i, j) \subseteq {"lparen", "rparen", "lbrack", "rbrack"}
+                        \/ T(i).stmt # T(j).stmt          \* one of them is reached through a definition
+                        \/ i < j /\ Between(i, j) \subseteq {"lparen", "rparen", "lbrack", "rbrack"}
 DupSame == \E k \in 1..(Len(Diags) - 1) : Diags[k].cls = "duplicate_def" /\ Diags[k + 1].cls = "previous_def" /\
               Diags[k].line = Diags[k + 1].line /\ Diags[k].col = Diags[k + 1].col
 
